@@ -21,7 +21,7 @@ LOCAL_RANGE = ('A-LOCALRANGE: for an incoming DateTime the local instant days*86
 
 
 class Numeric:
-    def __init__(self, ctx, cfg='default', unroll=16, max_disj=400, max_steps=3_000_000):
+    def __init__(self, ctx, cfg='default', unroll=3, max_disj=400, max_steps=3_000_000):
         self.ctx = ctx
         self.facts = ctx.facts(cfg)
         D.reset()
@@ -305,3 +305,57 @@ def aff_equal_cong(st, f1, f2, m):
         if iv is not None and -m < iv[0] and iv[1] < m:
             return True
     return False
+
+
+# ---------------------------------------------------------------- parallel entry analysis (one process per entry)
+
+def _worker(args):
+    prop, cfg, fn, opts = args
+    from .cli import Ctx
+    ctx = Ctx(prop, 'quick', 0)
+    nopts = dict(opts.get('numeric', {}))
+    nopts.update(opts.get('per_entry', {}).get(fn, {}))
+    N = Numeric(ctx, cfg, **nopts)
+    for setup in opts.get('setup', ()):
+        setup(N.I)
+    N.run(fn, **opts.get('run', {}))
+    obl = {}
+    for k, o in N.I.obl.items():
+        obl[k] = (o.kind, o.fn, o.sub, o.ordinal, o.span, o.ok, o.fail, o.samples, sorted(o.causes))
+    res = [(len(outs),) for (_a, _s, outs) in N.results.get(fn, [])]
+    return fn, obl, dict(N.I.unmodelled), dict(N.I.notes), [f.to_json() for f in ctx.findings], sorted(N.I.models_used), N.I.steps, res
+
+
+def run_entries_parallel(ctx, N, entries, opts=None, procs=8):
+    """analyse each entry in its own process and merge the obligation tables into N.I.obl"""
+    import multiprocessing as mp
+    from .absint import Obl
+    opts = opts or {}
+    jobs = [(ctx.prop, N.facts.cfg, fn, opts) for fn in entries]
+    with mp.get_context('fork').Pool(min(procs, len(jobs))) as pool:
+        results = pool.map(_worker, jobs, chunksize=1)
+    stats = {}
+    for fn, obl, unm, notes, findings, used, steps, res in results:
+        ctx.cov['entries'].append(fn)
+        stats[fn] = {'steps': steps, 'result_disjuncts': sum(r[0] for r in res)}
+        for k, (kind, ofn, sub, ordinal, span, okc, fail, samples, causes) in obl.items():
+            o = N.I.obl.get(k)
+            if o is None:
+                o = Obl(k, kind, ofn, sub, ordinal, span)
+                N.I.obl[k] = o
+            o.ok += okc
+            o.fail += fail
+            o.causes.update(causes)
+            o.entries.add(fn)
+            for s_ in samples:
+                if len(o.samples) < 3:
+                    o.samples.append(s_)
+        for k, v in unm.items():
+            N.I.unmodelled[k] = N.I.unmodelled.get(k, 0) + v
+        for k, v in notes.items():
+            N.I.notes[k] = N.I.notes.get(k, 0) + v
+        for u in used:
+            N.I.models_used[u] = N.I.models_used.get(u, 0) + 1
+        for f in findings:
+            ctx.finding(f['key'], f['rule'], f['where'], f['message'], f['detail'])
+    return stats
